@@ -378,3 +378,78 @@ func (o *oracle) expectTrace(f []string) []string {
 
 	return nil
 }
+
+func joinEvents(evs []string) string {
+	var sb strings.Builder
+	for _, e := range evs {
+		sb.WriteString(" " + e)
+	}
+
+	return sb.String()
+}
+
+var batchingCalls = map[string]bool{"Batched": true, "bSet": true, "bCommit": true, "bCancel": true, "Flush": true, "Set": true}
+
+// callKinds: the names of the calls that matter for the structure of a copy, in order (callbacks, reads and arguments dropped).
+func callKinds(evs []string) []string {
+	var out []string
+	for _, e := range evs {
+		name := e
+		if i := strings.IndexByte(e, ':'); i >= 0 {
+			name = e[:i]
+		}
+		if batchingCalls[name] {
+			out = append(out, name)
+		}
+	}
+
+	return out
+}
+
+// expectCopyCalls: the calls a Copy / CopyBatched makes on its target (see callKinds) when the handles exist and no fault is
+// armed - open stores and the early returns on a closed source / target; nil otherwise (compared with the Lean trace model only).
+func expectCopyCalls(o [2]*oracle, f []string) []string {
+	so, do := o[treeOf(f[1])], o[treeOf(f[3])]
+	rs, ok1 := so.realms[atoi(f[2])]
+	_, ok2 := do.realms[atoi(f[4])]
+	if !ok1 || !ok2 || do.armed {
+		return nil
+	}
+	size := 0
+	for k := range so.m {
+		if strings.HasPrefix(k, rs) {
+			size++
+		}
+	}
+	switch {
+	case do.closed && f[0] == "copyb":
+		return []string{"Batched"} // refused: nothing else happens, the source is not even iterated
+	case so.closed && f[0] == "copyb":
+		return []string{"Batched", "bCancel"}
+	case so.closed:
+		return []string{} // Iterate fails: no Set, no Flush
+	case do.closed && size > 0:
+		return []string{"Set"} // the first Set is refused: no further Set, no Flush
+	case do.closed:
+		return []string{"Flush"}
+	}
+	fl := flushes(do.stacks[atoi(f[4])])
+	var out []string
+	if f[0] == "copy" {
+		for i := 0; i < size; i++ {
+			out = append(append(out, "Set"), fl...)
+		}
+
+		return append(out, "Flush")
+	}
+	n := atoi(f[5])
+	out = append(out, "Batched")
+	for i := 1; i <= size; i++ {
+		out = append(out, "bSet")
+		if n != 0 && i%n == 0 {
+			out = append(append(append(out, "bCommit"), fl...), "Batched")
+		}
+	}
+
+	return append(append(append(out, "bCommit"), fl...), "Flush")
+}
